@@ -82,6 +82,8 @@ class SimulatedLocalJob(AbstractLocalJob):
         self._type = simulation_type
         self._failure_code = ''
         self._failure_message = ''
+        # A synchronous job runs when its results are first asked for, and only then.
+        self._synchronous_results: Sequence[Sequence[EngineResult]] | None = None
         if self._type == LocalSimulationType.ASYNCHRONOUS:
             # If asynchronous mode, just kick off a new task and move on.
             self._thread = concurrent.futures.ThreadPoolExecutor(max_workers=1)
@@ -144,10 +146,15 @@ class SimulatedLocalJob(AbstractLocalJob):
             self._state = quantum.ExecutionStatus.State.FAILURE
             raise e
 
+    def _run_synchronously_once(self) -> Sequence[Sequence[EngineResult]]:
+        if self._synchronous_results is None:
+            self._synchronous_results = self._execute_results()
+        return self._synchronous_results
+
     async def results_async(self) -> Sequence[EngineResult]:
         """Returns the job results, blocking until the job is complete."""
         if self._type == LocalSimulationType.SYNCHRONOUS:
-            return _flatten_results(self._execute_results())
+            return _flatten_results(self._run_synchronously_once())
         elif self._type == LocalSimulationType.ASYNCHRONOUS:
             return _flatten_results(await self._future)
         else:
@@ -162,7 +169,7 @@ class SimulatedLocalJob(AbstractLocalJob):
         if not self.program().is_batch():
             raise ValueError('batched_results called for a non-batch program.')
         if self._type == LocalSimulationType.SYNCHRONOUS:
-            return self._execute_results()
+            return self._run_synchronously_once()
         elif self._type == LocalSimulationType.ASYNCHRONOUS:
             return await self._future
         else:
